@@ -74,6 +74,36 @@ def _ones_like(ex, node, x, **k):
 NPX = Namespace("np", {"sin": _sin, "cos": _cos, "ones_like": _ones_like})
 
 
+def _non_polynomial(e):
+    try:
+        reduce_sc(e)
+        return False
+    except Exception:
+        return True
+
+
+def _pointwise(entry, spec):
+    import math
+    pts = [(sp.Rational(3, 5), sp.Rational(4, 5)), (sp.Rational(4, 5), sp.Rational(3, 5)), (sp.Rational(5, 13), sp.Rational(12, 13)), (sp.Rational(12, 13), sp.Rational(5, 13)),
+           (sp.Rational(8, 17), sp.Rational(15, 17)), (sp.Rational(15, 17), sp.Rational(8, 17))]
+    agree = 0
+    for sv, cv in pts:
+        want = sp.Rational(spec.subs({s: sv, c: cv})) ** 2
+        try:
+            got = sp.sympify(entry).subs({s: sv, c: cv})
+            got = got.replace(lambda t: getattr(t, "func", None) == T.sqrt_, lambda t: sp.sqrt(t.args[0]))
+            got = sp.nsimplify(got)
+        except Exception as e_:
+            return "undecided", f"cannot evaluate the entry at a rational point ({e_})"
+        if not got.is_Rational:
+            return "undecided", "entry is irrational at a rational point of the circle"
+        if abs(got - want) > sp.Rational(1, 10 ** 12) * max(1, abs(want)):
+            I_deg = 2 * math.degrees(math.atan2(float(sv), float(cv)))
+            return "refuted", f"at sin(I/2) = {sv}, cos(I/2) = {cv} (I = {I_deg:.1f} deg) the entry is {got} but F^2 = {want}"
+        agree += 1
+    return "undecided", f"agrees with F^2 at {agree} rational points"
+
+
 def build(tier="quick", seed=0):
     b = Bundle("C09")
     spec_lemmas(b)
@@ -98,6 +128,15 @@ def build(tier="quick", seed=0):
                     if key not in table:
                         ground(b, oid, f"{F}::calc_inclination", f"table has an entry for (m,p)=({m},{p}) equal to F_{l}{m}{p}(I)^2", False,
                                detail="entry missing", l=l, m=m, p=p)
+                    elif _non_polynomial(table[key]):
+                        # the entry is not a polynomial in sin(I/2), cos(I/2) (e.g. a square root): it cannot be normalised, but it can be REFUTED exactly at rational
+                        # points of the circle (prograde and retrograde obliquities); agreement at all points leaves it undecided
+                        verdict, info = _pointwise(table[key], spec)
+                        if verdict == "refuted":
+                            ground(b, oid, f"{F}::calc_inclination", f"entry (m,p)=({m},{p}) == Kaula F_{l}{m}{p}(I)^2", False, detail=info, refuted_model={"inclination": info.split("I = ")[1].split(" ")[0] if "I = " in info else "see detail"}, l=l, m=m, p=p)
+                        else:
+                            b.add(Obligation(oid=oid, fn=f"{F}::calc_inclination", clause=f"entry (m,p)=({m},{p}) == Kaula F_{l}{m}{p}(I)^2", goal=None,
+                                             decided=dict(verdict="undecided", backend="-", reason="entry is not a polynomial in sin(I/2), cos(I/2): " + info, model=None), meta=dict(l=l, m=m, p=p)))
                     else:
                         d = reduce_sc(table[key]) - spec2
                         mx = max([abs(Fraction(int(x.p), int(x.q))) for x in spec2.coeffs()] or [Fraction(1)])
@@ -198,14 +237,12 @@ def universal(b):
 def _replayer(l):
     def rp(ob, res):
         from tpv import native
-        import mpmath as mp
         m, p = ob.meta["m"], ob.meta["p"]
-        I = 0.3
-        out = native.run(dict(code=f"from TidalPy.tides.inclination_funcs.orderl{l} import calc_inclination\nr = calc_inclination(np.array([{I}]))\nresult = float(r[({m},{p})][0]) if ({m},{p}) in r else None"))
-        spec = kaula_F(l, m, p).subs({s: sp.sin(sp.Float(I, 40) / 2), c: sp.cos(sp.Float(I, 40) / 2)})
-        exp = float(spec ** 2)
-        rec = dict(replayed=True, inclination=I, l=l, m=m, p=p, native=out, expected_F2=exp)
+        angles = [0.3, 1.2, 2.0, 2.9]          # prograde and retrograde obliquities
+        out = native.run(dict(code=f"from TidalPy.tides.inclination_funcs.orderl{l} import calc_inclination\nr = calc_inclination(np.array({angles}))\nresult = [float(x) for x in r[({m},{p})]] if ({m},{p}) in r else None"))
+        exp = [float(kaula_F(l, m, p).subs({s: sp.sin(sp.Float(I, 40) / 2), c: sp.cos(sp.Float(I, 40) / 2)}) ** 2) for I in angles]
+        rec = dict(replayed=True, inclinations=angles, l=l, m=m, p=p, native=out, expected_F2=exp)
         got = out.get("result")
-        rec["confirmed"] = got is None or abs(got - exp) > 1e-10 * max(1.0, abs(exp))
+        rec["confirmed"] = got is None or any(abs(g_ - e_) > 1e-10 * max(1.0, abs(e_)) for g_, e_ in zip(got, exp))
         return rec
     return rp
